@@ -2,7 +2,12 @@
 C01 / C02, end to end — what the functional encoder (`Model/Encode.lean`) emits is accepted by the
 independent strict RFC 9639 decoder (`Model/Rfc.lean`) and decodes to exactly the input, for every
 configuration, every input block and EVERY oracle log (the float-derived quantised LPC parameters and
-entropy estimates).
+entropy estimates) whose quantised parameter sets satisfy the invariants of the integer tail of
+`quantize_parameters` (`OEvent.Ok`).  There is NO hypothesis on the LPC residual any more: `compute_error`
+reports whether every error value is a FLAC residual, and `estimated_qlpc` drops the candidate otherwise
+(`C01_computeError`: with flag `true` the stored values are the exact residual).  `C01_flag_needed` is the
+negative control: on its witness the flag is `false`, and encoding the stored (wrapped) values regardless
+— what the code did before the fix — yields a sub-frame the strict decoder rejects.
 
 Property theorems and non-vacuity examples only; the proofs live in `FlacVerif/Lemmas/Strict*.lean`.
 -/
@@ -12,8 +17,9 @@ open Strict
 
 /-! ### residual level -/
 
-/-- **C01/C02, residual.** `Residual::write` of a well-formed residual whose coded values satisfy the
-two extra conditions of RFC 9639 section 9.2.7.3 (`Strict.Residual.Strict`: for every coded position
+/-- **C01/C02, residual.** `Residual::write` of a well-formed residual that satisfies the extra conditions
+of RFC 9639 (`Strict.Residual.Strict`: `(block size >> partition order)` is LARGER than the predictor order,
+section 9.2.7 — `Residual.WF` allows equality —; and, section 9.2.7.3, for every coded position
 `warmup ≤ t < blockSize` the folded value `q·2^p + rem` is below `2^32` and the decoded value is not
 `-2^31`) is accepted by the strict reader, which consumes exactly these bits and returns the partition
 order, the Rice parameters and the decoded signal after the warm-up. -/
@@ -23,25 +29,38 @@ theorem C01_residual_strict (r : Residual) (n w : Nat) (hwf : r.WF) (hn : r.bloc
   readResidual_bits r n w hwf hn hw hs k
 
 /-- **C01/C02, residual, encoder side.** For prediction errors strictly inside `(-2^31, 2^31)` and any
-choice `(o, ps)` of the search space, the component `encode_residual_with_prc_parameter` builds is
-well-formed, accepted, and decodes to exactly the errors after the warm-up. -/
+choice `(o, ps)` of the search space whose partition length `n >> o` is larger than the predictor order
+`w`, the component `encode_residual_with_prc_parameter` builds is well-formed, accepted, and decodes to
+exactly the errors after the warm-up. -/
 theorem C01_residual_ofErrors (errors : List Int) (w o : Nat) (ps : List Nat) (n : Nat)
     (hn : errors.length = n) (hpos : 0 < n) (ho : o ≤ 15) (hps : ps.length = 2 ^ o) (hdvd : 2 ^ o ∣ n)
-    (hw : w ≤ n >>> o) (hp : ∀ p ∈ ps, p ≤ 14)
+    (hw : w < n >>> o) (hp : ∀ p ∈ ps, p ≤ 14)
     (herr : ∀ e ∈ errors, -(2 ^ 31 : Int) < e ∧ e < (2 ^ 31 : Int)) (k : Bits) :
     (Residual.ofErrors errors w o ps).WF ∧
     Rfc.readResidual n w ((Residual.ofErrors errors w o ps).bits ++ k) = .ok (⟨o, ps, errors.drop w⟩, k) :=
   readResidual_ofErrors errors w o ps n hn hpos ho hps hdvd hw hp herr k
 
-/-- … in particular after a successful parameter search (`search` never returns a choice outside
-its search space, and fails on `i32::MIN`). -/
+/-- The search only considers partition orders with `n >> order ≥ max(MIN_PARTITION_SIZE, warm-up)`,
+`MIN_PARTITION_SIZE = 64` (and fails on `i32::MIN`). -/
+theorem C01_search_partition (errors : List Int) (warm maxP : Nat) (prc : PrcParameter)
+    (hfit : ∀ e ∈ errors, fitsI32 e = true) (hn : max 64 warm ≤ errors.length) (hlen : errors.length < 2 ^ 16)
+    (hmax : maxP ≤ 14) (h : search errors warm maxP = some prc) :
+    (∀ e ∈ errors, -(2 ^ 31 : Int) < e ∧ e < (2 ^ 31 : Int)) ∧ prc.order ≤ 15 ∧
+    prc.ps.length = 2 ^ prc.order ∧ 2 ^ prc.order ∣ errors.length ∧
+    max 64 warm ≤ errors.length >>> prc.order ∧ ∀ p ∈ prc.ps, p ≤ 14 :=
+  search_space' errors warm maxP prc hfit hn hlen hmax h
+
+/-- … in particular after a successful parameter search with a predictor order below 64 (the encoder's
+fixed orders are at most 4, its LPC orders at most 32): every partition then holds at least 64 values, more
+than the predictor order. For `warm ≥ 64` the search can return `n >> order = warm` (e.g. `n = warm = 64`,
+partition order 0), which the strict reader rejects; the encoder never calls it that way. -/
 theorem C01_residual_search (errors : List Int) (warm maxP : Nat) (prc : PrcParameter)
     (hfit : ∀ e ∈ errors, fitsI32 e = true) (hn : max 64 warm ≤ errors.length) (hlen : errors.length < 2 ^ 16)
-    (hmax : maxP ≤ 14) (h : search errors warm maxP = some prc) (k : Bits) :
+    (hmax : maxP ≤ 14) (hw64 : warm < 64) (h : search errors warm maxP = some prc) (k : Bits) :
     (Residual.ofErrors errors warm prc.order prc.ps).WF ∧
     Rfc.readResidual errors.length warm ((Residual.ofErrors errors warm prc.order prc.ps).bits ++ k) =
       .ok (⟨prc.order, prc.ps, errors.drop warm⟩, k) :=
-  residual_of_search errors warm maxP prc hfit hn hlen hmax h k
+  residual_of_search errors warm maxP prc hfit hn hlen hmax hw64 h k
 
 /-! ### predictors -/
 
@@ -55,32 +74,39 @@ theorem C01_diffs_fixed (bps : Nat) (hb : 1 ≤ bps ∧ bps ≤ 25) (xs : List I
     (diffs k xs).drop k = fixedResidual k xs :=
   diffs_fixed bps hb xs hx k hk hl
 
-/-- `compute_error`, for ANY coefficients and shift: whenever it returns (the `i32` path panics on
-overflow), all entries are `i32`s and, if the exact residual fits an `i32` whenever the wrapping `i64`
-path was taken, the entries after the warm-up are the exact LPC residual. -/
+/-- `compute_error`, for ANY coefficients, shift and signal: whenever it returns the flag `true` (the
+`i32` path panics on overflow — which `C07_computeError32_total` excludes —, the `i64` path reports values
+outside `-(2^31-1) ..= 2^31-1` with the flag `false`), all entries are `i32`s and the entries after the
+warm-up are the EXACT LPC residual. No oracle hypothesis. -/
 theorem C01_computeError (coefs : List Int) (shift : Nat) (xs errors : List Int)
-    (h : computeError coefs shift xs = some errors)
-    (hfit : Strict.lpcWide coefs xs → ∀ e ∈ lpcResidual coefs shift xs, fitsI32 e = true) :
+    (h : computeError coefs shift xs = some (errors, true)) :
     errors.length = xs.length ∧ (∀ e ∈ errors, fitsI32 e = true) ∧
     errors.drop coefs.length = lpcResidual coefs shift xs :=
-  computeError_spec coefs shift xs errors h hfit
+  computeError_spec coefs shift xs errors h
+
+/-- The flag of the `i64` path, spelled out: it is `true` iff every value of the exact LPC residual lies in
+`-(2^31-1) ..= 2^31-1`. -/
+theorem C01_fitsResidual64 (coefs : List Int) (shift : Nat) (xs : List Int) :
+    fitsResidual64 coefs shift xs = true ↔ ∀ e ∈ lpcResidual coefs shift xs, e.natAbs ≤ 2 ^ 31 - 1 :=
+  fitsResidual64_iff_residual coefs shift xs
 
 /-! ### sub-frame level -/
 
 /-- **C01/C02, sub-frame (strongest form).** For every sub-frame configuration with `maxP ≤ 14`,
 every block of `1 ≤ n < 2^16` samples of width `1 ≤ bps ≤ 25`, and EVERY oracle log whose quantised
 LPC parameter sets satisfy the invariants of the integer tail of `quantize_parameters` (`OEvent.Ok`)
-and `LpcFits`: if `encode_subframe` returns a sub-frame `s` (i.e. no panic site is hit), then the
-strict RFC 9639 reader accepts `s.bits` followed by anything, consumes exactly `s.bits`, and
-reconstructs exactly the input; moreover `s` is well-formed. -/
+— no hypothesis on the residual —: if `encode_subframe` returns a sub-frame `s` (which it does whenever
+the log has the right shape, `C07_subframe_total`), then the strict RFC 9639 reader accepts `s.bits`
+followed by anything, consumes exactly `s.bits`, and reconstructs exactly the input; moreover `s` is
+well-formed. -/
 theorem C01_subframe_strict' (cfg : SubCfg) (xs : List Int) (bps : Nat) (log log' : List OEvent) (s : SubFrame)
     (hn : 1 ≤ xs.length) (hlen : xs.length < 2 ^ 16) (hb : 1 ≤ bps ∧ bps ≤ 25)
     (hx : ∀ x ∈ xs, SubFrame.inRange bps x = true) (hmax : cfg.maxP ≤ 14)
-    (hlog : ∀ e ∈ log, e.Ok) (hfit : LpcFits log xs)
+    (hlog : ∀ e ∈ log, e.Ok)
     (h : encodeSubframe cfg xs bps log = some (s, log')) (k : Bits) :
     ∃ rep, Rfc.readSubframe xs.length bps (s.bits ++ k) = .ok (rep, k) ∧ rep.samples = xs ∧
       rep.bitLen = s.bits.length ∧ s.WF :=
-  subframe_strict cfg xs bps log log' s hn hlen hb hx hmax hlog hfit h k
+  subframe_strict cfg xs bps log log' s hn hlen hb hx hmax hlog h k
 
 /-- **C01/C02, sub-frame**, with the hypotheses as they hold in the encoder (`bps ≥ 4`,
 `fixedMaxOrder ≤ 4`; neither is needed by the proof). -/
@@ -88,13 +114,14 @@ theorem C01_subframe_strict (cfg : SubCfg) (xs : List Int) (bps : Nat) (log log'
     (hn : 1 ≤ xs.length) (hlen : xs.length < 2 ^ 16) (hb : 4 ≤ bps ∧ bps ≤ 25)
     (hx : ∀ x ∈ xs, SubFrame.inRange bps x = true)
     (hcfg : cfg.fixedMaxOrder ≤ 4 ∧ cfg.maxP ≤ 14)
-    (hlog : ∀ e ∈ log, e.Ok) (hfit : LpcFits log xs)
+    (hlog : ∀ e ∈ log, e.Ok)
     (h : encodeSubframe cfg xs bps log = some (s, log')) (k : Bits) :
     ∃ rep, Rfc.readSubframe xs.length bps (s.bits ++ k) = .ok (rep, k) ∧ rep.samples = xs ∧
       rep.bitLen = s.bits.length ∧ s.WF :=
-  subframe_strict cfg xs bps log log' s hn hlen ⟨by omega, hb.2⟩ hx hcfg.2 hlog hfit h k
+  subframe_strict cfg xs bps log log' s hn hlen ⟨by omega, hb.2⟩ hx hcfg.2 hlog h k
 
-/-- Without LPC (or whenever the log holds no `qlpc` event) no oracle hypothesis is left. -/
+/-- Without LPC (or whenever the log holds no `qlpc` event) no oracle hypothesis is left at all (`OEvent.Ok`
+is trivial for `est` events). -/
 theorem C01_subframe_strict_nolpc (cfg : SubCfg) (xs : List Int) (bps : Nat) (log log' : List OEvent) (s : SubFrame)
     (hn : 1 ≤ xs.length) (hlen : xs.length < 2 ^ 16) (hb : 1 ≤ bps ∧ bps ≤ 25)
     (hx : ∀ x ∈ xs, SubFrame.inRange bps x = true) (hmax : cfg.maxP ≤ 14)
@@ -102,13 +129,10 @@ theorem C01_subframe_strict_nolpc (cfg : SubCfg) (xs : List Int) (bps : Nat) (lo
     (h : encodeSubframe cfg xs bps log = some (s, log')) (k : Bits) :
     ∃ rep, Rfc.readSubframe xs.length bps (s.bits ++ k) = .ok (rep, k) ∧ rep.samples = xs ∧
       rep.bitLen = s.bits.length ∧ s.WF := by
-  refine subframe_strict cfg xs bps log log' s hn hlen hb hx hmax ?_ ?_ h k
-  · intro e he
-    obtain ⟨o, b, rfl⟩ := hlog e he
-    trivial
-  · intro c sh p hm
-    obtain ⟨o, b, hc⟩ := hlog _ hm
-    cases hc
+  refine subframe_strict cfg xs bps log log' s hn hlen hb hx hmax ?_ h k
+  intro e he
+  obtain ⟨o, b, rfl⟩ := hlog e he
+  trivial
 
 /-! ### frame level
 
@@ -119,7 +143,7 @@ the structurally recursive `Strict.readSubframes`. -/
 /-- **C01/C02, frame.** For every sub-frame and stereo configuration (`maxP ≤ 14`), every block of
 1 to 8 channels of equal length `1 ≤ n < 2^16` with samples of width `1 ≤ bps ≤ 24` (a side channel is
 one bit wider), every sample rate, every frame number below `2^31` and EVERY oracle log satisfying
-`OEvent.Ok` and `FrameFits`: if `encode_frame` returns a frame `f`, then `Frame::write` succeeds, and the
+`OEvent.Ok`: if `encode_frame` returns a frame `f`, then `Frame::write` succeeds, and the
 strict RFC 9639 frame reader — given any STREAMINFO with the same rate, channel count and sample
 width, the expected frame number, and the frame's bytes followed by arbitrary further bytes — accepts
 (sync code, code tables, canonical UTF-8 number, CRC-8, every sub-frame, zero padding, CRC-16, sample
@@ -129,21 +153,15 @@ theorem C01_frame_strict (cfg : SubCfg) (st : StereoCfg) (chans : List (List Int
     (hch : 1 ≤ chans.length ∧ chans.length ≤ 8) (hlen : ∀ c ∈ chans, c.length = n) (hn : 1 ≤ n ∧ n < 2 ^ 16)
     (hb : 1 ≤ bps ∧ bps ≤ 24) (hx : ∀ c ∈ chans, ∀ x ∈ c, SubFrame.inRange bps x = true)
     (hnum : number < 2 ^ 31) (hmax : cfg.maxP ≤ 14)
-    (hlog : ∀ e ∈ log, e.Ok) (hfit : FrameFits log chans)
+    (hlog : ∀ e ∈ log, e.Ok)
     (h : encodeFrame cfg st chans bps rate number log = some (f, log'))
     (info : Rfc.Info) (hinfo : info.rate = rate ∧ info.channels = chans.length ∧ info.bps = bps) (more : List Nat) :
     ∃ fb rep, f.bits rfcCrc8 rfcCrc16 = some fb ∧
       Rfc.readFrame info number (packBytes fb ++ more) (fb ++ bytesToBits more) = .ok (rep, more, bytesToBits more) ∧
       rep.channels = chans ∧ rep.blockSize = n ∧ rep.number = number ∧ rep.byteLen * 8 = fb.length := by
   obtain ⟨fb, rep, h1, h2, h3, h4, h5, h6, _⟩ :=
-    frame_strict cfg st chans bps rate number n log log' f hch hlen hn hb hx hnum hmax hlog hfit h info hinfo more
+    frame_strict cfg st chans bps rate number n log log' f hch hlen hn hb hx hnum hmax hlog h info hinfo more
   exact ⟨fb, rep, h1, h2, h3, h4, h5, h6⟩
-
-theorem LpcFits_of_no_qlpc (log : List OEvent) (xs : List Int) (hlog : ∀ e ∈ log, ∃ o b, e = .est o b) :
-    LpcFits log xs := by
-  intro c sh p hm
-  obtain ⟨o, b, hc⟩ := hlog _ hm
-  cases hc
 
 /-- Without LPC (no `qlpc` event in the log) no oracle hypothesis is left at all. -/
 theorem C01_frame_strict_nolpc (cfg : SubCfg) (st : StereoCfg) (chans : List (List Int)) (bps rate number n : Nat)
@@ -158,9 +176,7 @@ theorem C01_frame_strict_nolpc (cfg : SubCfg) (st : StereoCfg) (chans : List (Li
       Rfc.readFrame info number (packBytes fb ++ more) (fb ++ bytesToBits more) = .ok (rep, more, bytesToBits more) ∧
       rep.channels = chans ∧ rep.blockSize = n ∧ rep.number = number ∧ rep.byteLen * 8 = fb.length :=
   C01_frame_strict cfg st chans bps rate number n log log' f hch hlen hn hb hx hnum hmax
-    (fun e he => by obtain ⟨o, b, rfl⟩ := hlog e he; trivial)
-    ⟨fun c _ => LpcFits_of_no_qlpc log c hlog,
-     fun l r _ => ⟨LpcFits_of_no_qlpc log _ hlog, LpcFits_of_no_qlpc log _ hlog⟩⟩ h info hinfo more
+    (fun e he => by obtain ⟨o, b, rfl⟩ := hlog e he; trivial) h info hinfo more
 
 /-- The strict decoder of the coded frame number inverts the encoder below `2^31` (canonical form
 enforced), whatever follows. -/
@@ -181,7 +197,7 @@ identical error strings. -/
 /-- **C01/C02, stream.** For every configuration (`maxP ≤ 14`), block size `16 ≤ bs < 2^16`, 1 to 8
 channels of equal length `total < 2^36` (with at most `2^31` blocks), sample width `4 ≤ bps ≤ 24`,
 rate `1 ≤ rate < 2^20`, every MD5 function producing 16 bytes, and EVERY oracle log satisfying
-`OEvent.Ok` and `StreamFits`: if `encode_with_fixed_block_size` returns a stream, then `Stream::write`
+`OEvent.Ok`: if `encode_with_fixed_block_size` returns a stream, then `Stream::write`
 succeeds and the strict RFC 9639 stream analyser accepts its bytes — marker, STREAMINFO (block-size and
 frame-size bounds, rate, width), every frame in sequence, the fixed-block-size discipline, the frame-size
 bounds, the total sample count and the MD5 signature — and returns exactly the input audio, with
@@ -193,16 +209,16 @@ theorem C01_stream_strict (md5 : List Nat → List Nat) (cfg : SubCfg) (st : Ste
     (hbs : 16 ≤ bs ∧ bs < 2 ^ 16) (hb : 4 ≤ bps ∧ bps ≤ 24) (hrate : 1 ≤ rate ∧ rate < 2 ^ 20)
     (hx : ∀ c ∈ chans, ∀ x ∈ c, SubFrame.inRange bps x = true) (hmax : cfg.maxP ≤ 14)
     (hnb : (total + bs - 1) / bs ≤ 2 ^ 31)
-    (hlog : ∀ e ∈ log, e.Ok) (hfit : StreamFits log (blocksOf bs chans))
+    (hlog : ∀ e ∈ log, e.Ok)
     (h : encodeStream md5 cfg st bs chans bps rate log = some (s, log')) :
     ∃ sb rep, s.bits rfcCrc8 rfcCrc16 = some sb ∧ Rfc.analyzeRec md5 (packBytes sb) = .ok rep ∧
       rep.audio = chans ∧ rep.info.rate = rate ∧ rep.info.channels = chans.length ∧ rep.info.bps = bps ∧
       rep.info.total = total ∧ rep.info.md5 = md5 (md5Input bps (Rfc.interleave chans)) ∧
       rep.info.minBlock = bs ∧ rep.info.maxBlock = bs ∧ rep.metadataBlocks = 0 ∧
       rep.frames.length = (total + bs - 1) / bs :=
-  stream_strict md5 cfg st bs chans bps rate log log' s total hmd5 hch hlen htot hbs hb hrate hx hmax hnb hlog hfit h
+  stream_strict md5 cfg st bs chans bps rate log log' s total hmd5 hch hlen htot hbs hb hrate hx hmax hnb hlog h
 
-/-- Without LPC (no `qlpc` event in the log) no oracle hypothesis is left. -/
+/-- Without LPC (no `qlpc` event in the log) no oracle hypothesis is left at all. -/
 theorem C01_stream_strict_nolpc (md5 : List Nat → List Nat) (cfg : SubCfg) (st : StereoCfg) (bs : Nat)
     (chans : List (List Int)) (bps rate : Nat) (log log' : List OEvent) (s : Stream) (total : Nat)
     (hmd5 : ∀ x, (md5 x).length = 16 ∧ ∀ b ∈ md5 x, b < 256)
@@ -218,13 +234,30 @@ theorem C01_stream_strict_nolpc (md5 : List Nat → List Nat) (cfg : SubCfg) (st
       rep.info.minBlock = bs ∧ rep.info.maxBlock = bs ∧ rep.metadataBlocks = 0 ∧
       rep.frames.length = (total + bs - 1) / bs :=
   stream_strict md5 cfg st bs chans bps rate log log' s total hmd5 hch hlen htot hbs hb hrate hx hmax hnb
-    (fun e he => by obtain ⟨o, b, rfl⟩ := hlog e he; trivial)
-    (fun b _ => ⟨fun c _ => LpcFits_of_no_qlpc log c hlog,
-      fun l r _ => ⟨LpcFits_of_no_qlpc log _ hlog, LpcFits_of_no_qlpc log _ hlog⟩⟩) h
+    (fun e he => by obtain ⟨o, b, rfl⟩ := hlog e he; trivial) h
 
 /-! ### non-vacuity (sub-frame level) -/
 
 namespace C01StrictEx
+
+/-- A residual of block size 8 in two partitions of 4 with predictor order 4: `Residual.WF` holds
+(`4 ≤ 8 >> 1`), RFC 9639 section 9.2.7 forbids it (`8 >> 1` is not larger than 4). -/
+def eqPart : Residual := Residual.ofErrors [0, 0, 0, 0, 1, -1, 2, -2] 4 1 [0, 2]
+
+set_option maxRecDepth 100000 in
+/-- **Negative control for the partition rule**: a residual whose first partition is exactly as long as the
+predictor order is REJECTED by the strict reader, as a residual and inside a well-formed fixed sub-frame —
+while the repository's own (lenient) decoder reconstructs the samples —; with predictor order 3 the same
+partitioning is accepted. -/
+example : eqPart.WF ∧ (SubFrame.fixed [5, 6, 7, 8] eqPart 16).WF ∧
+    (match Rfc.readResidual 8 4 eqPart.bits with | .error e => e | .ok _ => "ok")
+      = "residual: first partition not longer than the predictor order" ∧
+    (match Rfc.readSubframe 8 16 (SubFrame.fixed [5, 6, 7, 8] eqPart 16).bits with | .error e => e | .ok _ => "ok")
+      = "residual: first partition not longer than the predictor order" ∧
+    Repo.decodeSubframe false (SubFrame.fixed [5, 6, 7, 8] eqPart 16) = .ok [5, 6, 7, 8, 10, 13, 19, 28] ∧
+    (Rfc.readResidual 8 3 (Residual.ofErrors [0, 0, 0, 1, 1, -1, 2, -2] 3 1 [0, 2]).bits).toOption.map (·.1.values)
+      = some [1, 1, -1, 2, -2] := by
+  decide +kernel
 
 /-- A constant and a verbatim block (too short for prediction), evaluated by the kernel. -/
 example : ((encodeSubframe ⟨true, true, false, 4, true, 14⟩ [5, 5, 5, 5] 16 []).map fun r =>
@@ -252,35 +285,50 @@ example : ((encodeSubframe ⟨true, false, true, 4, true, 14⟩ smooth64 16 [.ql
      (Rfc.readSubframe 64 16 r.1.bits).toOption.map (·.1.samples))) = some (true, some smooth64) := by decide
 
 set_option maxRecDepth 100000 in
-/-- … and the oracle hypotheses of `C01_subframe_strict` hold for that log. -/
-example : (∀ e ∈ [OEvent.qlpc [2, -1] 0 3], e.Ok) ∧ LpcFits [.qlpc [2, -1] 0 3] smooth64 := by
-  refine ⟨by decide, ?_⟩
-  intro c sh p hm hw
-  simp only [List.mem_singleton, OEvent.qlpc.injEq] at hm
-  obtain ⟨rfl, rfl, rfl⟩ := hm
-  exact absurd hw (by decide)
+/-- … and the oracle hypothesis of `C01_subframe_strict` holds for that log, so the theorem applies to it. -/
+example : ∃ s log' rep, encodeSubframe ⟨true, false, true, 4, true, 14⟩ smooth64 16 [.qlpc [2, -1] 0 3] = some (s, log') ∧
+    Rfc.readSubframe 64 16 (s.bits ++ [true, false]) = .ok (rep, [true, false]) ∧ rep.samples = smooth64 := by
+  cases h : encodeSubframe ⟨true, false, true, 4, true, 14⟩ smooth64 16 [.qlpc [2, -1] 0 3] with
+  | none => exact absurd h (by decide)
+  | some p =>
+    obtain ⟨s, log'⟩ := p
+    obtain ⟨rep, h1, h2, _⟩ := C01_subframe_strict _ smooth64 16 [.qlpc [2, -1] 0 3] log' s (by decide) (by decide)
+      (by decide) (by decide) (by decide) (by decide) h [true, false]
+    exact ⟨s, log', rep, rfl, h1, h2⟩
 
 /-- 64 samples alternating between `2^18` and `2^19` (24-bit audio). -/
 def wrapBlock : List Int := (List.range 64).map fun (t : Nat) => (2 ^ 18 : Int) * ((t : Int) % 2 + 1)
 
 set_option maxRecDepth 100000 in
-/-- **`LpcFits` cannot be dropped.** For the parameter set `coefs = [-16384, 1]`, `shift = 0`,
-`precision = 15` (which satisfies `OEvent.Ok`) and `wrapBlock`, `compute_error` takes the `i64` path,
-the exact residual is `2^33, 2^32, …`, its wrap to 32 bits is all zeros; the model emits a 167-bit LPC
-sub-frame (far below the verbatim size), and the strict decoder rejects it (the exact prediction
-leaves the sample width). A decoder that wraps at 32 bits would reconstruct the input. The real
-`quantize_parameters` never produces such a set for such a signal; the functional model with an
+/-- **The flag of `compute_error` is needed (negative control; formerly `C01_LpcFits_needed`).** For the
+parameter set `coefs = [-16384, 1]`, `shift = 0`, `precision = 15` (which satisfies `OEvent.Ok`) and
+`wrapBlock`, `compute_error` takes the `i64` path, the exact residual is `2^33, 2^32, …`, its wrap to 32
+bits is all zeros.
+* Fixed code: the flag is `false`, the LPC candidate is dropped, `encode_subframe` emits the verbatim
+  sub-frame, and the strict decoder returns the input.
+* Code before the fix (no flag: the stored, wrapped values are encoded regardless): a 167-bit LPC sub-frame
+  (far below the verbatim size, so it was the one emitted), which the strict decoder REJECTS (the exact
+  prediction leaves the sample width). A decoder that wraps at 32 bits would reconstruct the input.
+The real `quantize_parameters` never produces such a set for such a signal; the functional model with an
 arbitrary oracle does. -/
-theorem C01_LpcFits_needed :
+theorem C01_flag_needed :
     (∀ x ∈ wrapBlock, SubFrame.inRange 24 x = true) ∧ OEvent.Ok (.qlpc [-16384, 1] 0 15) ∧
     Strict.lpcWide [-16384, 1] wrapBlock ∧ (lpcResidual [-16384, 1] 0 wrapBlock).take 2 = [2 ^ 33, 2 ^ 32] ∧
+    -- the fixed code
+    (computeError [-16384, 1] 0 wrapBlock).map (fun r => (r.1.take 4, r.2)) = some ([0, 0, 0, 0], false) ∧
     ((encodeSubframe ⟨true, false, true, 4, true, 14⟩ wrapBlock 24 [.qlpc [-16384, 1] 0 15]).map fun r =>
-      ((match r.1 with | .lpc _ _ _ _ _ _ => true | _ => false), r.1.bits.length,
-       (Rfc.readSubframe 64 24 r.1.bits).toOption.isNone)) = some (true, 167, true) := by
+      ((match r.1 with | .verbatim _ _ => true | _ => false), r.2,
+       (Rfc.readSubframe 64 24 r.1.bits).toOption.map (·.1.samples))) = some (true, [], some wrapBlock) ∧
+    -- the code before the fix: the stored buffer is encoded whatever the flag says
+    (((computeError [-16384, 1] 0 wrapBlock).bind fun r => encodeResidual 14 r.1 2).map fun res =>
+      let s := SubFrame.lpc (wrapBlock.take 2) [-16384, 1] 0 15 res 24
+      (s.count, decide (s.bits.length < verbatimBits 64 24),
+       (Rfc.readSubframe 64 24 s.bits).toOption.isNone)) = some (some 167, true, true) := by
   decide
 
--- #eval match Rfc.readSubframe 64 24 (((encodeSubframe ⟨true, false, true, 4, true, 14⟩ wrapBlock 24
---     [.qlpc [-16384, 1] 0 15]).map (fun r => r.1.bits)).getD []) with | .ok _ => "ok" | .error e => e
+-- #eval match Rfc.readSubframe 64 24 ((((computeError [-16384, 1] 0 wrapBlock).bind fun r =>
+--     encodeResidual 14 r.1 2).map fun res => (SubFrame.lpc (wrapBlock.take 2) [-16384, 1] 0 15 res 24).bits).getD [])
+--   with | .ok _ => "ok" | .error e => e
 --   "subframe: reconstructed sample outside the sample width"
 
 
